@@ -15,10 +15,14 @@
      message ++ field - inside the message, inside the field, or straddling the boundary - leaves a stored field
      that differs from the CRC of the altered message (C16_crc16_field_bursts, C16_crc8_field_bursts, and at byte
      level for the frame footer as laid out on the wire, C16_footer_bursts).
+   - At parser level (Proofs/ParserInv.v): on ARBITRARY bytes, whatever Parser.p_frame accepts as a frame ends with
+     the CRC-16 of the bytes before it (C16_accepted_frame_has_valid_crc: an invariant of the bit reader carried through
+     every recogniser of the parser), hence a frame altered by a burst of up to 16 bits is never accepted as a frame
+     that ends where the original ended (C16_altered_frame_rejected_at_boundary).
    PARTIAL: an alteration that changes how many bits the subframes consume moves the CRC window (the frame then
    ends elsewhere); the format does not exclude an accidental match (probability about 2^-16); those cases are
    enumerated on the implementation by the PARSE stream (exhaustively in the thorough tier). *)
-From FV Require Import Model.Base Model.Crc Proofs.CrcBurst Proofs.CrcField.
+From FV Require Import Model.Base Model.Crc Model.Component Model.Parser Proofs.CrcBurst Proofs.CrcField Proofs.ParserInv.
 Local Open Scope N_scope.
 
 Theorem C16_crc16_detects_bursts : forall (x y : list bool) (i j : nat) (p : list bool),
@@ -75,3 +79,26 @@ Theorem C16_footer_bursts : forall (body body' : list N) (c' : N) (i j : nat) (p
   c' <> crc16 body'.
 Proof. exact crc16_footer_burst_detected. Qed.
 Print Assumptions C16_footer_bursts.
+
+(* ---- the parser on arbitrary bytes ---- *)
+Theorem C16_accepted_frame_has_valid_crc :
+  forall (start : list N) (channels bps : N) (f : frame) (rest' : list N),
+  Forall (fun x => x < 256) start -> p_frame channels bps start = Some (f, rest') ->
+  exists L : nat, (L + 2 <= length start)%nat /\ rest' = skipn (L + 2) start /\
+                  crc16 (firstn L start) = 256 * nth L start 0 + nth (L + 1) start 0.
+Proof. exact p_frame_crc_inv. Qed.
+Print Assumptions C16_accepted_frame_has_valid_crc.
+
+(* fb: the bytes of a frame (body, then its CRC-16); fb': the same number of bytes, differing from fb by a burst of at most
+   16 bits anywhere; followed by anything.  If the parser accepts a frame at all, it is not one that ends where fb ended. *)
+Theorem C16_altered_frame_rejected_at_boundary :
+  forall (channels bps : N) (body fb' rest : list N) (i j : nat) (p : list bool) (f' : frame) (rest' : list N),
+  let c := crc16 body in
+  let fb := body ++ [c / 256; c mod 256] in
+  length fb' = length fb -> Forall (fun x => x < 256) fb' -> Forall (fun x => x < 256) rest ->
+  zipxor (bytes_bits8 fb) (bytes_bits8 fb') = repeat false i ++ p ++ repeat false j ->
+  length p = 16%nat -> existsb (fun b => b) p = true ->
+  p_frame channels bps (fb' ++ rest) = Some (f', rest') ->
+  length rest' <> length rest.
+Proof. exact altered_frame_rejected_at_boundary. Qed.
+Print Assumptions C16_altered_frame_rejected_at_boundary.
